@@ -43,7 +43,7 @@ def PQuiet : Ev → Prop
   | .assertFail => True
   | .oob => True
   | .ret _ _ _ => True
-  | .tsWrite _ _ => True
+  | .tsWrite _ _ => False
   | .traceCall _ _ => False
   | .recDone _ _ _ => False
   | .discard _ => False
@@ -196,11 +196,10 @@ theorem openWrite_inv (cfg : Cfg) (d : DST) (args : Args) (ts : Nat) (saved : Bo
   generalize runSer _ (s.setAt 0) = s2 at h2
   split
   · exact h2
-  · have h3 : Same s2 (if d.feat.tsBegin.isSome = true then s2.ev (.tsWrite "begin" ts) else s2) := by
+  · have h4 : CInv d (if d.feat.tsBegin.isSome = true then s2.ev (.tsWrite "begin" ts) else s2) := by
       split
-      · exact Same.ev _ (.tsWrite _ _) trivial
-      · exact Same.refl _
-    have h4 := h3.inv h2
+      · exact h2.ev (.tsWrite _ _) trivial
+      · exact h2
     generalize (if d.feat.tsBegin.isSome = true then s2.ev (.tsWrite "begin" ts) else s2) = s3 at h4
     refine ⟨?_, ?_, ?_, ?_⟩
     · simpa [nDisc] using h4.disc
@@ -257,11 +256,10 @@ theorem closeFinish_inv (d : DST) (ts : Nat) (saved : Bool) (s : St) (hi : CInv 
   split
   · exact hi
   · simp only
-    have h3 : Same s (if d.feat.tsEnd.isSome = true then s.ev (.tsWrite "end" ts) else s) := by
+    have h4 : CInv d (if d.feat.tsEnd.isSome = true then s.ev (.tsWrite "end" ts) else s) := by
       split
-      · exact Same.ev _ (.tsWrite _ _) trivial
-      · exact Same.refl _
-    have h4 := h3.inv hi
+      · exact hi.ev (.tsWrite _ _) trivial
+      · exact hi
     generalize (if d.feat.tsEnd.isSome = true then s.ev (.tsWrite "end" ts) else s) = s3 at h4
     cases hsq : d.feat.seqNum.isSome
     · refine ⟨?_, ?_, ?_, ?_⟩
@@ -400,11 +398,10 @@ theorem traceWrite_inv (cfg : Cfg) (d : DST) (e : ERT) (args : Args) (s : St) (h
   generalize runSer _ s = s1 at h1
   split
   · exact h1
-  · have h2 : Same s1 (if d.feat.erTs.isSome = true then s1.ev (.tsWrite "rec" s1.c.curLastEventTs) else s1) := by
+  · have h3 : CInv d (if d.feat.erTs.isSome = true then s1.ev (.tsWrite "rec" s1.c.curLastEventTs) else s1) := by
       split
-      · exact Same.ev _ (.tsWrite _ _) trivial
-      · exact Same.refl _
-    have h3 := h2.inv h1
+      · exact h1.ev (.tsWrite _ _) trivial
+      · exact h1
     generalize (if d.feat.erTs.isSome = true then s1.ev (.tsWrite "rec" s1.c.curLastEventTs) else s1) = s2 at h3
     have h4 := commit_inv cfg d _ (h3.ev (.recDone e.name s.c.at_ s2.c.at_) trivial)
     split
